@@ -1,35 +1,77 @@
 """C01  Sequence and Source compute the left-to-right composition of their elements.
 
 spec/Flow.tla (coroutine machine) + spec/FlowSem.tla (Sem) checked by TLC; every terminal state of
-the bounded model is replayed on real Sequence / nested Sequences / Source; larger random programs
+the bounded models is replayed on real Sequence / nested Sequences / Source; larger random programs
 are recorded and validated by spec/Trace_Flow.tla.
+
+Bounded models (configurations of Flow.tla):
+  Flow_c01_<tier>      all programs over the element vocabulary (AlphaC01)
+  Flow_c01_ext*        elements without data (SetContext), callables of every kind, negative Slices in all
+                       sign patterns, Split with no / tuple / Sequence / nested-Split branches, bufsize None..
+  Flow_c01_bad         arguments that cannot be converted (also values that look like nothing, half
+                       interfaces, nested in Split / RunIf): LenaTypeError at construction
+  Flow_c01_nul         callables returning None
+  Flow_c01_vals        flows of None, False, "", {}, [], (), 0, bare and in pairs
+  Flow_c01_rerun*      the same pipeline object run again after a complete, an abandoned or a failed run
 """
 import random
+import threading
+import time
+from concurrent.futures import ThreadPoolExecutor
 
 from .. import core
 from .. import flowlib as fl
 from ..util import exc_name
 
 
-def run_real(prog, n, pairs, shape, as_source, flowkind="iter", calls=1):
-    """Build fresh elements in the given bracketing and run.  Returns (built, out).
+class InputError(Exception):
+    """raised by the instrumented input (Abort of spec/Flow.tla)"""
 
-    flowkind: how the flow is handed over - "iter" (an iterator), "list" / "tuple" (re-iterable
-    containers; for a Source the container itself is the first element).  calls > 1: the same
-    Source object is called repeatedly (a container-based Source generates the same flow each time);
-    the outputs of all calls must be equal and are returned once."""
+
+def kinds_of(prog):
+    return "+".join(st["t"] if st["t"] != "bad" else "bad:" + st["k"] for st in prog)
+
+
+def build(prog, pairs, shape, mode, first=None, nsplit=0, share=False):
+    """Fresh elements in the given bracketing.  mode: "seq" | "source" | "nsource" (a Source whose first
+    element is a Source holding the first nsplit elements).  share: equal descriptors become ONE object."""
     import lena.core
-    els = [fl.build_stage(st, pairs) for st in prog]
-    flow = [fl.make_value(i, pairs) for i in range(n)]
-    given = {"iter": lambda: iter(flow), "list": lambda: list(flow), "tuple": lambda: tuple(flow)}[flowkind]
+    els = []
+    for i, st in enumerate(prog):
+        j = next((j for j in range(i) if share and prog[j] == st and fl.reusable(st)), None)
+        els.append(els[j] if j is not None else fl.build_stage(st, pairs))
+    if mode == "nsource":
+        with fl.quiet_warnings():
+            inner = lena.core.Source(first, *els[:nsplit])
+            return lena.core.Source(inner, *els[nsplit:])
+    args = fl.nest(els, shape)
+    if mode == "source":
+        with fl.quiet_warnings():
+            return lena.core.Source(first, *args)
+    return lena.core.Sequence(*args)
+
+
+def source_first(flow, kind):
+    """First element of a Source that generates *flow* on every call."""
+    if kind == "iter":
+        return lambda: iter(list(flow))
+    if kind == "gen":
+        def generate():
+            for v in list(flow):
+                yield v
+        return generate
+    if kind == "cls":
+        return fl.iterator_class(flow)
+    return fl.hand_over(flow, kind)        # a re-iterable container is the first element itself
+
+
+def run_real(prog, flow, pairs, shape, mode="seq", kind="iter", calls=1, nsplit=0, share=False):
+    """Build and run.  Returns (built, out).  calls > 1: the same object is run repeatedly on the same
+    flow (a container-based Source generates the same flow each time); all outputs must be equal."""
+    import lena.core
     try:
-        args = fl.nest(els, shape)
-        if as_source:
-            first = (lambda: iter(flow)) if flowkind == "iter" else given()
-            with fl.quiet_warnings():
-                seq = lena.core.Source(first, *args)
-        else:
-            seq = lena.core.Sequence(*args)
+        first = source_first(flow, kind) if mode != "seq" else None
+        seq = build(prog, pairs, shape, mode, first, nsplit, share)
     except lena.core.LenaTypeError:
         return "LenaTypeError", None
     except Exception as exc:    # noqa
@@ -38,7 +80,7 @@ def run_real(prog, n, pairs, shape, as_source, flowkind="iter", calls=1):
         with fl.quiet():
             outs = []
             for _ in range(calls):
-                res = seq() if as_source else seq.run(given())
+                res = seq.run(fl.hand_over(flow, kind)) if mode == "seq" else seq()
                 outs.append([fl.project(v) for v in res])
             out = outs[0]
             if any(o != out for o in outs[1:]):
@@ -53,8 +95,11 @@ def bad_source_first(ctx):
     LenaTypeError at construction, with or without a tail (never later, when the Source is called)."""
     import lena.core
     import lena.flow
-    tails = [(), (lambda x: x,), (lena.flow.Slice(2),), (lena.flow.Count(), lena.core.Sequence())]
-    for name, first in (("int", 1), ("none", None), ("obj", fl.NoRun()), ("float", 2.5), ("runnone", fl.RunNotCallable())):
+    import lena.meta
+    tails = [(), (lambda x: x,), (lena.flow.Slice(2),), (lena.flow.Count(), lena.core.Sequence()),
+             (lena.meta.SetContext("s", 1),)]
+    for name, first in (("int", 1), ("none", None), ("obj", fl.NoRun()), ("float", 2.5), ("runnone", fl.RunNotCallable()),
+                        ("zero", 0), ("false", False), ("fillonly", fl.FillOnly())):
         for tail in tails:
             ctx.evaluations += 1
             try:
@@ -70,51 +115,197 @@ def bad_source_first(ctx):
 
 
 def stateless(prog):
-    """Programs whose elements can be run twice (accumulators keep state between runs)."""
-    return all(st["t"] not in ("sum", "last", "count", "split") for st in prog)
+    """Programs whose elements can be run twice (spec/FlowSem.tla Reusable)."""
+    return all(fl.reusable(st) for st in prog)
 
 
-def replay(ctx, rec, all_shapes=True):
+def has_grouped_branch(prog):
+    return any(st["t"] == "split" and any(b["t"] in ("seqsum", "seqbr", "fcsum") for b in st["brs"]) for st in prog)
+
+
+def variants(rec, salt, full, lite=False):
+    """The ways one exported scenario is built and driven: (shape, mode, kind, calls, nsplit, share, brnest).
+    Flat Sequence and Source always; the other bracketings, flow kinds and reuses rotate with (n, pairs), so
+    that the scenarios of one program together cover all of them (full: everything for every scenario)."""
+    prog, special = rec["prog"], rec.get("vals") == "special"
+    m = len(prog)
+    flat = list(range(m))
+    rot = rec["n"] * 2 + (1 if rec["pairs"] else 0) + salt
+    V = [(flat, "seq", "iter", 1, 0, False), (flat, "source", "iter", 1, 0, False)]
+    others = fl.shapes(m)[1:]
+    take = len(others) if full else min(1 if lite else 3, len(others))
+    for j in range(take):
+        sh = others[(rot * 3 + j) % len(others)]
+        V += [(sh, "seq", "iter", 1, 0, False), (sh, "source", "iter", 1, 0, False)]
+    # the flow may be any finite iterable: re-iterable containers, generators, objects with only __iter__ or
+    # only __getitem__; a Source takes a container (or a class of iterators) as its first element
+    seqkinds = ["tuple", "gen", "iterable", "getitem", "deque"]
+    if not special and not rec["pairs"] and rec.get("base", 0) == 0:
+        seqkinds.append("range")
+    srckinds = ["tuple", "gen", "iterable", "deque", "cls"]
+    V.append((flat, "seq", "list", 1, 0, False))
+    V.append((flat, "source", "list", 1, 0, False))
+    for j in range(len(seqkinds) if full else 1 if lite else 2):
+        V.append((flat, "seq", seqkinds[(rot * 2 + j) % len(seqkinds)], 1, 0, False))
+    for j in range(len(srckinds) if full else 1):
+        V.append((flat, "source", srckinds[(rot + j) % len(srckinds)], 1, 0, False))
+    if m >= 1:
+        V.append(([[0]] + flat[1:], "seq", "list", 1, 0, False))
+    # a Source whose first element is itself a Source (the first k elements placed there)
+    for k in (range(m + 1) if full else [rot % (m + 1)]):
+        V.append((flat, "nsource", ["iter", "list"][(rot + k) % 2], 1, k, False))
+    if stateless(prog):
+        # a Source over a container generates the same flow on every call, and a Sequence of stateless
+        # elements computes the same composition on every run
+        again = [(flat, "source", "list", 2, 0, False), (flat, "source", "iter", 2, 0, False),
+                 (flat, "seq", "iter", 2, 0, False), (flat, "seq", "list", 2, 0, False)]
+        V += again if full else [again[rot % 4]] if lite else [again[rot % 4], again[(rot + 1) % 4]]
+        if any(prog[i] == prog[j] for i in range(m) for j in range(i)):
+            # the same element object may occur twice
+            V += [(flat, "seq", "iter", 1, 0, True), (flat, "source", "list", 1, 0, True)]
+    if has_grouped_branch(prog):
+        # regrouping inside a Split branch (nested Sequences, tuple or sequence object)
+        V = [v + (k,) for v in V[:6] for k in range(4)]
+    else:
+        V = [v + (0,) for v in V]
+    return V
+
+
+def replay(ctx, rec, full=True, lite=False):
     prog, n, pairs = rec["prog"], rec["n"], rec["pairs"]
     exp_out = [fl.norm_spec_val(v) for v in rec["out"]]
-    shapes = fl.shapes(len(prog)) if all_shapes else [list(range(len(prog)))]
     ok = True
-    variants = [(shape, src, "iter", 1) for shape in shapes for src in (False, True)]
-    flat = list(range(len(prog)))
-    # the flow may be any finite iterable: re-iterable containers, flat and with the first element nested
-    variants += [(flat, False, "list", 1), (flat, False, "tuple", 1), (flat, True, "list", 1)]
-    if len(prog) >= 1:
-        variants.append(([[0]] + flat[1:], False, "list", 1))
-    if stateless(prog):
-        # a Source over a container generates the same flow on every call
-        variants += [(flat, True, "list", 2), (flat, True, "iter", 2)]
-        # ... and a Sequence of stateless elements computes the same composition on every run
-        variants += [(flat, False, "iter", 2), (flat, False, "list", 2)]
-    if any(st["t"] == "split" and any(b["t"] == "seqsum" for b in st["brs"]) for st in prog):
-        # regrouping inside a Split branch that is a Sequence object
-        variants = [v + (k,) for v in variants[:6] for k in range(4)]
+    if rec["built"] != "ok":
+        # nothing is run: every bracketing must be rejected at construction
+        V = [(sh, mode, "iter", 1, 0, False, 0) for sh in fl.shapes(len(prog)) for mode in ("seq", "source")]
     else:
-        variants = [v + (0,) for v in variants]
-    for shape, as_source, flowkind, calls, brnest in variants:
+        V = variants(rec, ctx.seed, full, lite)
+    for shape, mode, kind, calls, nsplit, share, brnest in V:
         fl.BRANCH_NEST[0] = brnest
-        built, out = run_real(prog, n, pairs, shape, as_source, flowkind, calls)
+        # a fresh flow every time: elements may write into the contexts they are given (Count)
+        flow = fl.make_flow(n, pairs, rec.get("base", 0), rec.get("vals", "nat"))
+        built, out = run_real(prog, flow, pairs, shape, mode, kind, calls, nsplit, share)
         ctx.evaluations += 1
         if built != rec["built"]:
             ok = False
-            kinds = "+".join(st["t"] if st["t"] != "bad" else "bad:" + st["k"] for st in prog)
-            ctx.violation("build:%s:expected=%s:got=%s" % (kinds, rec["built"], built),
-                          {"prog": prog, "shape": shape, "source": as_source})
+            ctx.violation("build:%s:expected=%s:got=%s" % (kinds_of(prog), rec["built"], built),
+                          {"prog": prog, "shape": shape, "mode": mode})
         elif built == "ok" and out != exp_out:
             ok = False
-            kinds = "+".join(st["t"] for st in prog)
-            ctx.violation("run:%s%s%s%s" % (kinds, ":source" if as_source else "",
-                                            "" if flowkind == "iter" else ":flow=" + flowkind,
-                                            "" if calls == 1 else ":calls=%d" % calls),
-                          {"prog": prog, "n": n, "pairs": pairs, "shape": shape, "source": as_source,
-                           "flowkind": flowkind, "calls": calls, "branch_grouping": brnest,
+            ctx.violation("run:%s%s%s%s%s%s" % (kinds_of(prog), {"seq": "", "source": ":source", "nsource": ":source-in-source"}[mode],
+                                                "" if kind == "iter" else ":flow=" + kind,
+                                                "" if calls == 1 else ":calls=%d" % calls,
+                                                ":shared-object" if share else "",
+                                                ":vals" if rec.get("vals") == "special" else ""),
+                          {"prog": prog, "n": n, "pairs": pairs, "shape": shape, "mode": mode,
+                           "flowkind": kind, "calls": calls, "first_in_inner_source": nsplit, "branch_grouping": brnest,
                            "expected": exp_out, "observed": out})
     fl.BRANCH_NEST[0] = 0
     return ok
+
+
+# ---------------------------------------------------------------- reuse of one pipeline object
+def failing_flow(vals, fail_at):
+    """An iterator over vals that raises InputError instead of giving the value number fail_at."""
+    for i, v in enumerate(vals):
+        if i == fail_at:
+            raise InputError()
+        yield v
+    if fail_at >= len(vals):
+        raise InputError()
+
+
+def replay_rerun(ctx, rec, first_runs, k):
+    """rec: a second run of spec/Flow.tla (prev = how the first run of the same object ended).  The real
+    object is driven through the same first run (exhausted / abandoned after `taken` results by close(),
+    by dropping it or by throw() / ended by an exception of its input), then run on the second flow.
+    Also interleaved: the second run is made while the first is suspended, which then continues."""
+    import lena.core
+    prog, pairs = rec["prog"], rec["pairs"]
+    p = rec["prev"][0]
+    flow1 = fl.make_flow(p["n"], pairs, 0)
+    flow2 = fl.make_flow(rec["n"], pairs, rec["base"])
+    exp2 = [fl.norm_spec_val(v) for v in rec["out"]]
+    modes = [("seq", "iter"), ("source", "iter"), ("seq", "list")]
+    mode, kind = modes[k % 3]
+    if p["how"] == "raised":
+        kind = "iter"
+    stopkind = ("close", "abandon", "throw")[(k // 3) % 3]
+    key = "rerun:%s:after-%s%s" % (kinds_of(prog), p["how"] if p["how"] != "closed" else stopkind,
+                                   "" if mode == "seq" else ":source")
+    cur = [None]
+    with fl.quiet():
+        try:
+            seq = build(prog, pairs, list(range(len(prog))), mode, first=lambda: cur[0])
+        except Exception as exc:    # noqa
+            ctx.violation("build:%s:expected=ok:got=%s" % (kinds_of(prog), exc_name(exc)), {"prog": prog, "mode": mode})
+            return
+
+        def start(flow, failing=None):
+            if failing is not None:
+                given = failing_flow(flow, failing)
+            else:
+                given = fl.hand_over(flow, kind)
+            if mode == "seq":
+                return seq.run(given)
+            cur[0] = given
+            return seq()
+        ctx.evaluations += 1
+        try:
+            g1 = start(flow1, p["pulled"] if p["how"] == "raised" else None)
+            out1 = []
+            if p["how"] == "exhausted":
+                out1 = [fl.project(v) for v in g1]
+            elif p["how"] == "raised":
+                try:
+                    for v in g1:
+                        out1.append(fl.project(v))
+                except InputError:
+                    pass
+            else:
+                while len(out1) < p["taken"]:
+                    out1.append(fl.project(next(g1)))
+                if stopkind == "close" and hasattr(g1, "close"):
+                    g1.close()
+                elif stopkind == "throw" and hasattr(g1, "throw"):
+                    try:
+                        g1.throw(InputError())
+                    except (InputError, StopIteration):
+                        pass
+                del g1          # dropping the last reference finalises the generator chain
+            out2 = [fl.project(v) for v in start(flow2)]
+        except Exception as exc:    # noqa
+            ctx.violation(key + ":raised:" + exc_name(exc), {"prog": prog, "prev": p, "n": rec["n"]})
+            return
+        if out2 != exp2:
+            ctx.violation(key, {"prog": prog, "first_run": p, "n": rec["n"], "base": rec["base"],
+                                "expected": exp2, "observed": out2, "first_run_observed": out1})
+            return
+        # interleaved: two runs of the same object alive at once
+        exp1 = first_runs.get(core.canon([prog, p["n"], pairs]))
+        if p["how"] == "closed" and exp1 is not None:
+            ctx.evaluations += 1
+            try:
+                seq = build(prog, pairs, list(range(len(prog))), mode, first=lambda: cur[0])
+                g1 = start(flow1)
+                o1 = [fl.project(next(g1)) for _ in range(p["taken"])]
+                g2 = start(flow2)
+                o2 = []
+                alive = [True, True]
+                while any(alive):       # alternate between the two generators
+                    for j, (g, o) in enumerate(((g2, o2), (g1, o1))):
+                        if alive[j]:
+                            try:
+                                o.append(fl.project(next(g)))
+                            except StopIteration:
+                                alive[j] = False
+            except Exception as exc:    # noqa
+                ctx.violation(key.replace("rerun:", "interleaved:") + ":raised:" + exc_name(exc), {"prog": prog, "prev": p})
+                return
+            if o1 != exp1 or o2 != exp2:
+                ctx.violation("interleaved:%s%s" % (kinds_of(prog), "" if mode == "seq" else ":source"),
+                              {"prog": prog, "n1": p["n"], "n2": rec["n"], "taken_before_second_started": p["taken"],
+                               "expected": [exp1, exp2], "observed": [o1, o2]})
 
 
 def run(ctx):
@@ -122,33 +313,96 @@ def run(ctx):
     tag = "thorough" if ctx.thorough else "quick"
     ctx.assume("element vocabulary of spec/FlowSem.tla; contexts abstracted to their top-level keys "
                "(count key with its value)")
-    ctx.mc("Flow", "Flow_c01_%s.cfg" % tag, coverage=True,
-           must_cover=("Ask", "StageNeed", "StageHave", "StageEof", "Source", "Deliver"))
-    recs = ctx.export("Flow", "Flow_c01_%s_export.cfg" % tag, min_records=500)
+    lock = threading.Lock()
+    account = ctx._account
+
+    def locked_account(*a, **kw):
+        with lock:
+            return account(*a, **kw)
+    ctx._account = locked_account
+    ext = "Flow_c01_ext_thorough" if ctx.thorough else "Flow_c01_ext"
+    rerun_cfg = "Flow_c01_rerun_thorough.cfg" if ctx.thorough else "Flow_c01_rerun.cfg"
+    machine = ("Ask", "StageNeed", "StageHave", "StageEof", "Source", "Deliver")
+    w = max(2, ctx.nworkers // 2)
+    with ThreadPoolExecutor(max_workers=8) as pool:
+        jobs = {
+            "mc": pool.submit(ctx.mc, "Flow", "Flow_c01_%s.cfg" % tag, coverage=True, must_cover=machine),
+            "export": pool.submit(ctx.export, "Flow", "Flow_c01_%s_export.cfg" % tag, min_records=500),
+            "mc_ext": pool.submit(ctx.mc, "Flow", ext + ".cfg", workers=w),
+            "ext": pool.submit(ctx.export, "Flow", ext + "_export.cfg", min_records=500),
+            "nul": pool.submit(ctx.export, "Flow", "Flow_c01_nul.cfg", min_records=200),
+            "bad": pool.submit(ctx.export, "Flow", "Flow_c01_bad.cfg", min_records=200),
+            "vals": pool.submit(ctx.export, "Flow", "Flow_c01_vals.cfg", min_records=500),
+            "rerun": pool.submit(ctx.mc, "Flow", rerun_cfg, workers=1, coverage=True,
+                                 must_cover=machine + ("Stop", "Abort", "Rerun")),
+        }
+        res = {k: j.result() for k, j in jobs.items()}
+
+    def note(rec):
+        ctx.traces += 1
+        if rec["prog"] and rec["n"]:
+            ctx.distinct.add(core.canon([rec["prog"], rec["n"], rec["pairs"], rec.get("vals"), rec.get("base")]))
+    cpu = {"tlc_wall": round(time.time() - ctx.t0, 1)}
+    t_cpu = [time.process_time()]
+
+    def lap(name):
+        now = time.process_time()
+        cpu[name] = round(now - t_cpu[0], 1)
+        t_cpu[0] = now
+    ctx.extra["phase_cpu_s"] = cpu
+    recs = res["export"]
     for k, rec in enumerate(recs):
-        replay(ctx, rec, all_shapes=(not ctx.thorough) or len(rec["prog"]) <= 2 or k % 7 == 0)
-        ctx.traces += 1
-        if rec["prog"] and rec["n"]:
-            ctx.distinct.add(core.canon([rec["prog"], rec["n"], rec["pairs"]]))
+        replay(ctx, rec, full=ctx.thorough and (len(rec["prog"]) <= 2 or k % 7 == 0))
+        note(rec)
     ctx.sample({"spec_behaviour": recs[len(recs) // 2]})
-    ctx.sample({"spec_behaviour": recs[-1]})
+    lap("main")
+    for k, rec in enumerate(res["ext"]):
+        replay(ctx, rec, full=ctx.thorough and k % 3 == 0, lite=(rec["n"] + (1 if rec["pairs"] else 0) + ctx.seed) % 2 == 1)
+        note(rec)
+    ctx.sample({"spec_behaviour_extended_vocabulary": res["ext"][len(res["ext"]) // 2]})
+    lap("ext")
     # callables whose result is None: one output per input, None is a value like any other
-    recs_nul = ctx.export("Flow", "Flow_c01_nul.cfg", min_records=200)
-    for rec in recs_nul:
-        replay(ctx, rec, all_shapes=False)
-        ctx.traces += 1
-        if rec["prog"] and rec["n"]:
-            ctx.distinct.add(core.canon([rec["prog"], rec["n"], rec["pairs"]]))
-    ctx.sample({"spec_behaviour_none_values": recs_nul[len(recs_nul) // 2]})
+    for rec in res["nul"]:
+        replay(ctx, rec, full=False, lite=True)
+        note(rec)
+    lap("nul")
+    # values that look like nothing pass like any other value
+    for rec in res["vals"]:
+        replay(ctx, rec, full=False, lite=True)
+        note(rec)
+    ctx.sample({"spec_behaviour_special_values": res["vals"][len(res["vals"]) // 2]})
+    lap("vals")
+    # unconvertible arguments
+    nbad = 0
+    for rec in res["bad"]:
+        replay(ctx, rec)
+        note(rec)
+        nbad += rec["built"] != "ok"
+    ctx.extra["rejected_at_construction_scenarios"] = nbad
+    lap("bad")
+    # the same object run again
+    rr = res["rerun"].records
+    if len(rr) < 500:
+        raise core.MachineryError("Flow_c01_rerun produced %d records" % len(rr))
+    first_runs = {core.canon([r["prog"], r["n"], r["pairs"]]): [fl.norm_spec_val(v) for v in r["out"]]
+                  for r in rr if not r["prev"] and r["exhausted"]}
+    second = [r for r in rr if r["prev"]]
+    for k, rec in enumerate(second):
+        replay_rerun(ctx, rec, first_runs, k + ctx.seed)
+        note(rec)
+    ctx.extra["second_run_scenarios"] = len(second)
+    if second:
+        ctx.sample({"spec_behaviour_second_run": second[len(second) // 2]})
+    lap("rerun")
     bad_source_first(ctx)
     # empty Sequence is the identity also on arbitrary objects
-    objs = [object(), "s", (1, {}), None]
+    objs = [object(), "s", (1, {}), None, 0, "", {}, [], ()]
     if list(lena.core.Sequence().run(iter(objs))) != objs:
         ctx.violation("empty-sequence-identity", {})
     # ---- code -> spec: larger random programs in random bracketings, validated by Trace_Flow
     rnd = random.Random(ctx.seed)
     alphabet = ["map", "map", "filter", "slice", "lagk", "lastk", "count", "runif", "reverse", "end",
-                "sum", "last", "split"]
+                "sum", "last", "split", "nslice", "nodata", "splitx", "print"]
     trace = []
     ntr = 1500 if ctx.thorough else 300
     attempts = 0
@@ -156,15 +410,18 @@ def run(ctx):
         attempts += 1
         prog = [fl.random_stage(rnd, alphabet) for _ in range(rnd.randint(0, 6))]
         n, pairs = rnd.randint(0, 12), rnd.random() < 0.6
-        if not pairs and any(st.get("f") == "id" for st in prog):
-            pass     # Print is used for bare data
         shape = random_shape(rnd, list(range(len(prog))))
-        built, out = run_real(prog, n, pairs, shape, rnd.random() < 0.3, rnd.choice(["iter", "iter", "list", "tuple"]))
+        mode = "source" if rnd.random() < 0.3 else "seq"
+        kind = rnd.choice(["iter", "iter", "list", "tuple", "gen", "iterable", "deque"])
+        fl.BRANCH_NEST[0] = rnd.randint(0, 3)
+        built, out = run_real(prog, fl.make_flow(n, pairs), pairs, shape, mode, kind)
+        fl.BRANCH_NEST[0] = 0
         if built != "ok" or not isinstance(out, list):
             ctx.violation("random-run:%s" % (out if built == "ok" else built), {"prog": prog, "n": n, "shape": shape})
             continue
-        trace.append({"prog": prog, "n": n, "pairs": pairs, "out": out, "pulls": [], "lazy": False,
+        trace.append({"prog": prog, "n": n, "pairs": pairs, "out": out, "pulls": [], "lazy": False, "alive": -1,
                       "shape": repr(shape)})
+    lap("random")
     if not trace:
         return ctx.finish(rule="no random program could be run on the real code (reported as violations)")
     acc = ctx.validate("Trace_Flow", "Trace_Flow.cfg", trace)
@@ -186,8 +443,10 @@ def run(ctx):
             raise core.MachineryError("Trace_Flow does not bind: corrupted %d accepted %d" % (k, acc2))
         ctx.extra["binding_demo"] = "record %d with its first output removed is rejected at index %d" % (k, acc2)
     return ctx.finish(
-        rule="S2C: all programs of the bounded Flow model x flows x {bare, pairs}, each in every bracketing "
-             "and as a Source tail; non-trivial = non-empty program and flow; C2S: seeded random programs "
+        rule="S2C: all programs of the bounded Flow models (vocabulary, extended vocabulary, unconvertible "
+             "arguments, None results, special values, second runs) x flows x {bare, pairs}, each flat, in "
+             "rotating bracketings, as a Source tail and Source in Source, on iterators / containers / generators; "
+             "non-trivial = non-empty program and flow; C2S: seeded random programs "
              "(<= 6 stages, random nesting) validated by Trace_Flow",
         exhaustive=True)
 
